@@ -10,6 +10,7 @@ counted as 'stale' (the tree moved on; the corpus, not the tree, needs attention
 from __future__ import annotations
 
 import importlib
+import os
 from typing import Dict, List, Tuple
 
 from .core import Repo, dry_run
@@ -56,9 +57,35 @@ def apply(repo_root: str, file: str, old: str, new: str, nth: int = 0):
     return src.replace(old, new)
 
 
-def run_corpus(pid: str, repo_root: str, only: str = None) -> Dict[str, list]:
+def _one(job):
+    pid, repo_root, name, props, file, old, new = job
     mod = importlib.import_module(f"opfcheck.props.{pid.lower()}")
+    relevant = pid in props
+    src = apply(repo_root, file, old, new)
+    if src is None:
+        return ("stale", name)
+    try:
+        compile(src, file, "exec")
+    except SyntaxError:
+        return ("error", (name, "variant does not compile"))
+    repo = Repo(repo_root, overrides={file: src})
+    code, viol, err = dry_run(pid, mod.check, repo)
+    if relevant:
+        if code == 1:
+            return ("caught", (name, sorted({v.rule for v in viol})))
+        if code == 2:
+            return ("error", (name, err))
+        return ("missed", name)
+    if code == 0:
+        return ("silent_ok", name)
+    if code == 2:
+        return ("error", (name, err))
+    return ("false_alarm", (name, [(v.rule, v.construct[:80]) for v in viol]))
+
+
+def run_corpus(pid: str, repo_root: str, only: str = None, jobs: int = None) -> Dict[str, list]:
     res = {"caught": [], "missed": [], "silent_ok": [], "false_alarm": [], "stale": [], "error": []}
+    work = []
     for name, props, file, old, new in load_corpus():
         if only and only != name:
             continue
@@ -67,29 +94,16 @@ def run_corpus(pid: str, repo_root: str, only: str = None) -> Dict[str, list]:
         benign_for = benign and (not props or ("~" + pid) in props)
         if not relevant and not benign_for:
             continue
-        src = apply(repo_root, file, old, new)
-        if src is None:
-            res["stale"].append(name)
-            continue
-        try:
-            compile(src, file, "exec")
-        except SyntaxError:
-            res["error"].append((name, "variant does not compile"))
-            continue
-        repo = Repo(repo_root, overrides={file: src})
-        code, viol, err = dry_run(pid, mod.check, repo)
-        if relevant:
-            if code == 1:
-                res["caught"].append((name, sorted({v.rule for v in viol})))
-            elif code == 2:
-                res["error"].append((name, err))
-            else:
-                res["missed"].append(name)
-        else:
-            if code == 0:
-                res["silent_ok"].append(name)
-            elif code == 2:
-                res["error"].append((name, err))
-            else:
-                res["false_alarm"].append((name, [(v.rule, v.construct[:80]) for v in viol]))
+        work.append((pid, repo_root, name, props, file, old, new))
+    if jobs is None:
+        jobs = min(16, os.cpu_count() or 1)
+    if jobs > 1 and len(work) > 3:
+        import multiprocessing as mp
+
+        with mp.get_context("fork").Pool(jobs) as pool:
+            out = pool.map(_one, work)
+    else:
+        out = [_one(j) for j in work]
+    for kind, item in out:
+        res[kind].append(item)
     return res
